@@ -7,7 +7,7 @@ namespace Driver
 open Ipfix Ipfix.Agg
 
 /-- correlate-field tokens in the fixed order of the configuration: six strings... see Model/Agg -/
-def corrKinds : List Nat := [0, 0, 0, 0, 0, 0, 2, 1, 1, 1, 1]   -- 0 string, 1 number, 2 IPv4 address
+def corrKinds : List Nat := [0, 0, 0, 0, 0, 0, 2, 1, 1, 1, 1, 3]   -- 0 string, 1 number, 2 IPv4 address, 3 IPv6 address
 
 def parseCorr (tok : String) : Option (List CorrV) :=
   let ts := tok.splitOn ","
@@ -17,13 +17,15 @@ def parseCorr (tok : String) : Option (List CorrV) :=
     | some (.bytes b), 0 => some (.str b)
     | some (.num n), 1 => some (.num n)
     | some (.bytes b), 2 => some (.ip4 b)
+    | some (.bytes b), 3 => some (.ip6 b)
     | _, _ => none
 
 def corrToken (c : List CorrV) : String :=
   ",".intercalate (c.map fun v => match v with
     | .str b => "x" ++ hexOrDash b
     | .num n => s!"n{n}"
-    | .ip4 b => "x" ++ hexOrDash b)
+    | .ip4 b => "x" ++ hexOrDash b
+    | .ip6 b => "x" ++ hexOrDash b)
 
 def natsToken (l : List Nat) : String := ",".intercalate (l.map toString)
 
